@@ -16,6 +16,7 @@ pub mod c18;
 pub mod c19;
 pub mod c20;
 pub mod miri;
+pub mod sanitize;
 
 use crate::report::{Report, Tier};
 use serde_json::Value;
@@ -139,6 +140,7 @@ pub fn plan(id: &str) -> Option<Plan> {
             engines: vec![
                 Engine { name: "sim", salt: 1, quick: 4000, thorough: 200_000, serial: false, run: Box::new(|s, t| c10::scenario(s, t)) },
                 Engine { name: "stress", salt: 2, quick: 3, thorough: 16, serial: true, run: Box::new(|s, t| c10::stress(s, t.pick(30_000, 150_000))) },
+                Engine { name: "asan", salt: 6, quick: 0, thorough: 2, serial: true, run: Box::new(|s, _| sanitize::asan("C10", &["sim", "stress"], s)) },
             ],
             extra: None,
         },
@@ -152,6 +154,7 @@ pub fn plan(id: &str) -> Option<Plan> {
                 Engine { name: "stress", salt: 2, quick: 2, thorough: 10, serial: true, run: Box::new(|s, t| c11::stress(s, t.pick(20_000, 100_000))) },
                 Engine { name: "stress-threads", salt: 4, quick: 4, thorough: 24, serial: true, run: Box::new(|s, t| c11::stress_threads(s, t.pick(20_000, 100_000))) },
                 Engine { name: "miri", salt: 3, quick: 8, thorough: 64, serial: false, run: Box::new(|s, t| miri::run("C11", s, t.pick(2, 4), None, 0.0)) },
+                Engine { name: "asan", salt: 6, quick: 0, thorough: 2, serial: true, run: Box::new(|s, _| sanitize::asan("C11", &["sim", "stress", "stress-threads"], s)) },
             ],
             extra: None,
         },
